@@ -438,6 +438,7 @@ def run(ctx, args):
     ctx.cov["distribution"]["trees"] = len(docs)
 
     css(ctx, keep[:12] if quick else keep[:60])
+    order_search(ctx, keep if quick else keep[:80])
     for f in ctx.findings:
         if f["status"] == "fixed":
             ctx.count(1, "fixed-finding-regression-case")
@@ -452,6 +453,61 @@ def run(ctx, args):
         replay_open=replay_open,
         explanation="a difference inside in_subset (decided by the Coq definition) is a VIOLATION; outside it, it must "
                     "fall into the class of an open finding")
+
+
+# ---------------------------------------------------------------- in_document_order, directly on the implementation
+NESTED_DOCS = [
+    '<r><a id="o"><b>1</b><a id="i"><b>2</b></a><b>3</b></a></r>',
+    '<r><a><a><a><b k="1"/></a><b/></a><c/><b k="2"/></a><b/><a><b/></a></r>',
+    '<r xmlns:p="u"><b><a/><b><a k="1"/><b><a/></b><a/></b><a k="2"/></b></r>',
+]
+
+
+def order_search(ctx, docs):
+    """`in_document_order()` must list the tag results sorted by document position, whatever order the evaluation
+    produced them in: paths that descend once and then proceed along child / self steps on trees where elements of one
+    name are nested (the children of an outer match that follow an inner match are found first), the same through
+    css_select (`X > Y`, `X Y`), and generated downward paths"""
+    rng = ctx.rng
+    names = ["a", "b", "c", "*"]
+    exprs = []
+    for x in names:
+        for y in names:
+            exprs += ["descendant::%s/%s" % (x, y), "descendant::%s/self::%s/%s" % (x, x, y), "descendant::%s/%s/%s" % (x, y, rng.choice(names)),
+                      "descendant::%s/%s[@k]" % (x, y), "%s/%s" % (x, y), "descendant-or-self::%s/%s" % (x, y), "//%s/%s" % (x, y),
+                      "descendant::%s/descendant::%s" % (x, y)]
+    sels = ["%s > %s" % (x, y) for x in names for y in names] + ["%s %s" % (x, y) for x in names for y in names] + \
+           ["%s > %s > %s" % (x, y, z) for x in "ab" for y in "ab" for z in "abc"]
+    trees = [impl.Document(d) for d in NESTED_DOCS] + list(docs)
+    n = 0
+    for d in trees:
+        if not hasattr(d, "root"):
+            continue
+        tree = xq.Tree(d.root)
+        tags = [(p, nd_) for p, nd_, _ in tree.nodes if isinstance(nd_, TagNode)]
+        starts = tags[:1] + rng.sample(tags, min(2, len(tags)))
+        for pos, node in starts:
+            for kind, items in (("xpath", exprs if d in trees[:len(NESTED_DOCS)] else rng.sample(exprs, 12)),
+                                ("css", sels if d in trees[:len(NESTED_DOCS)] else rng.sample(sels, 6))):
+                for e in items:
+                    try:
+                        res = node.xpath(e) if kind == "xpath" else node.css_select(e)
+                        plain = [tree.pos_of(x) for x in res]
+                        if not all(isinstance(x, TagNode) for x in res):
+                            continue
+                        ordered = [tree.pos_of(x) for x in res.in_document_order()]
+                    except Exception as ex:     # noqa: BLE001
+                        ctx.fail("in_document_order raises on tag results", {"doc": safe_str(d.root), "ctx": list(pos), kind: e,
+                                                                            "error": type(ex).__name__})
+                        continue
+                    n += 1
+                    if plain != sorted(plain):
+                        ctx.nontrivial_case(("order", e, safe_str(d.root), pos))
+                    if ordered != sorted(set(plain)):
+                        ctx.fail("in_document_order does not list the tag results in document order",
+                                 {"doc": safe_str(d.root), "ctx": list(pos), kind: e,
+                                  "in_document_order": [list(p) for p in ordered], "sorted": [list(p) for p in sorted(set(plain))]})
+    ctx.count(n, "in_document_order:direct")
 
 
 # ---------------------------------------------------------------- CSS
